@@ -145,12 +145,15 @@ func init() {
 	})
 	register(&Property{
 		ID:    "C09",
-		Units: []string{"fasthttp.(*RequestHeader).Read", "fasthttp.(*RequestHeader).readLoop", "fasthttp.(*RequestHeader).tryRead", "fasthttp.(*RequestHeader).parse", "fasthttp.readRawHeaders", "fasthttp.(*headerScanner)", "fasthttp.nextLine", "bufio.(*Reader)"},
+		Units: []string{"fasthttp.(*RequestHeader).Read", "fasthttp.(*ResponseHeader).Read", "fasthttp.(*ResponseHeader).tryRead", "fasthttp.(*ResponseHeader).parse", "fasthttp.(*RequestHeader).readLoop", "fasthttp.(*RequestHeader).tryRead", "fasthttp.(*RequestHeader).parse", "fasthttp.readRawHeaders", "fasthttp.(*headerScanner)", "fasthttp.nextLine", "bufio.(*Reader)"},
 		Runs: []Run{
-			{Pkg: "fasthttp", Func: "vhC09RequestHead", Quick: map[string]int{"holeLen": 2, "contLen": 2}, Thorough: map[string]int{"holeLen": 3, "contLen": 2}},
+			{Pkg: "fasthttp", Func: "vhC09RequestHead", Quick: map[string]int{"holeLen": 2, "contLen": 2}, Thorough: map[string]int{"holeLen": 3, "contLen": 2}, PathCap: 1500000},
+			{Pkg: "fasthttp", Func: "vhC09ResponseHead", Quick: map[string]int{"holeLen": 2, "contLen": 2}, Thorough: map[string]int{"holeLen": 3, "contLen": 2}, PathCap: 1500000},
+			{Pkg: "fasthttp", Func: "vhC09NoWaiting", Quick: map[string]int{"holeLen": 2}, Thorough: map[string]int{"holeLen": 3}, PathCap: 1500000},
 		},
 		Assume: []string{
-			"request heads only: five templates with a symbolic hole of ≤ holeLen bytes (header name, header value, Content-Length value, request target, line break position) × four blank-line spellings (CRLF CRLF, LF LF, LF CRLF, CRLF LF) × two arbitrary continuations of ≤ contLen bytes; response heads are outside this check",
+			"request heads only: five templates with a symbolic hole of ≤ holeLen bytes (header name, header value, Content-Length value, request target, line break position) × four blank-line spellings (CRLF CRLF, LF LF, LF CRLF, CRLF LF) × two arbitrary continuations of ≤ contLen bytes; the same for response heads (five templates: header name, header value, Content-Length, status code, line-break position)",
+			"no waiting: a complete request or response head from the same templates delivered in one, two or three reads whose cuts fall inside its last five bytes; the parser must not ask the connection for more once the whole head has been delivered (with the listed finding active only heads ending in CRLF CRLF are considered)",
 		},
 	})
 }
